@@ -14,6 +14,36 @@ def run(ck: Check):
     session_universe(ck, oracle_session, quick=ck.tier == "quick")
     from scale import long_run_kill_invariant
     long_run_kill_invariant(ck)
+    # file names at the limit of the file system: an extension with which 'original<ext>' and '<n>-boring<ext>' still fit
+    # into NAME_MAX but '<n>-interesting<ext>' does not (and the neighbouring lengths).  A copy that cannot be written
+    # stops the run (the OS error comes out); it never goes on without the copy a later kill would need
+    from explore import last_accepted, replay_doc
+    from runner import impl_run
+    from universe import EXCS
+    for elen in range(255 - 16, 255 - 6):
+        ext = "." + "e" * (elen - 1)
+        for strategy in ("minimize", "minimize-around"):
+            for v in ("YYNR", "YNYR", "YYYYR", "YNNNR", "YR", "YYNNYNR"):
+                data = b"a\nb\nc\nd\ne\nf\ng\nh\n"
+                try:
+                    run_ = impl_run(strategy, {}, None, data, v, load=True, ext=ext, exc_class=[e for e in EXCS if e is not OSError][len(v) % 5])
+                except OSError:
+                    continue
+                ck.count("name-length-abort")
+                ck.nontrivial(("name-length-abort", elen, strategy, v))
+                ctx = {"strategy": strategy, "cfg": {}, "tc": run_.loaded, "file0": data, "verdicts": v, "clock": [], "atom": "line",
+                       "exc_class": EXCS[len(v) % len(EXCS)].__name__, "load": True, "extension_length": elen}
+                if run_.exc in (None, "CapHit", "Hang") or not run_.seen:
+                    continue        # (no test ran: not even 'original<ext>' fits, the run stops before it starts)
+                # however the run ended (the scripted abort, or the OS error of a copy that does not fit): the file holds the
+                # last accepted version and the newest interesting copy (else 'original') IS that version
+                want = last_accepted(ctx, run_)
+                inter = [(int(n.split("-")[0]), b) for n, b, _ in run_.temp if n.endswith("-interesting")]
+                best = max(inter)[1] if inter else dict((n, b) for n, b, _ in run_.temp).get("original")
+                if run_.final != want or best != want:
+                    ck.violation(f"{strategy} with a {elen}-byte extension, verdicts {v} (run ended with {run_.exc}): the file holds "
+                                 f"{run_.final!r}, the newest interesting copy in the temp dir {best!r}, the last accepted version is "
+                                 f"{want!r}", replay_doc(ctx, run_, want=want.hex()))
     ex.diff()
     return ck.finish(level="proof", rule=RULE + EXTRA_RULE, assumptions=ASSUME)
 
